@@ -379,22 +379,27 @@ Proof.
     rewrite app_length. cbn [length]. lia.
 Qed.
 
+Lemma first_nl_at : forall nl content pre line post p,
+  is_line_at nl content pre line post p ->
+  first_nl_from nl (skipn (N.to_nat p) content) p = N.of_nat (length pre + length line).
+Proof.
+  intros nl content pre line post p (Hc & Hpre & Hline & Hpost & Hp1 & Hp2).
+  subst content. rewrite skipn_app_ge by exact Hp1.
+  rewrite skipn_app_le by lia.
+  rewrite first_nl_from_app_none by (now apply has_skipn).
+  rewrite skipn_length.
+  destruct Hpost as [->|[post' ->]].
+  - cbn [first_nl_from]. lia.
+  - cbn [first_nl_from]. rewrite byte_eqb_refl. lia.
+Qed.
+
 Lemma line_end_at : forall nl content pre line post p,
   is_line_at nl content pre line post p ->
   (forall c, In c content -> other_half nl c = false) ->
   line_end nl content p = N.of_nat (length pre + length line).
 Proof.
-  intros nl content pre line post p (Hc & Hpre & Hline & Hpost & Hp1 & Hp2) Hoh.
-  unfold line_end.
-  assert (Hi : first_nl_from nl (skipn (N.to_nat p) content) p = N.of_nat (length pre + length line)).
-  { subst content. rewrite skipn_app_ge by exact Hp1.
-    rewrite skipn_app_le by lia.
-    rewrite first_nl_from_app_none by (now apply has_skipn).
-    rewrite skipn_length.
-    destruct Hpost as [->|[post' ->]].
-    - cbn [first_nl_from]. lia.
-    - cbn [first_nl_from]. rewrite byte_eqb_refl. lia. }
-  rewrite Hi.
+  intros nl content pre line post p Hat Hoh.
+  unfold line_end. rewrite (first_nl_at _ _ _ _ _ _ Hat).
   destruct (N.ltb 0 (N.of_nat (length pre + length line))); [|reflexivity].
   destruct (nth_error content _) as [c|] eqn:En; [|reflexivity].
   apply nth_error_In in En. now rewrite (Hoh c En).
@@ -425,43 +430,40 @@ Proof.
     + reflexivity.
 Qed.
 
-Lemma skipn_nonempty : forall (l : bytes) n, (n < length l)%nat -> skipn n l <> [].
+(* indentation (all four blank bytes) and lead_blanks (space, tab) agree on a line that has no
+   new-line byte; a line of blanks only included: both are its length *)
+Lemma indentation_lead : forall bs, (forall x, In x bs -> is_nl x = false) ->
+  indentation bs = lead_blanks bs.
 Proof.
-  intros l n H E. apply (f_equal (@length byte)) in E. rewrite skipn_length in E. cbn [length] in E. lia.
-Qed.
-
-Lemma trim_skipn : forall bs, (forall x, In x bs -> is_nl x = false) ->
-  (lead_blanks bs < length bs)%nat ->
-  trim_spaces_from_left bs = skipn (lead_blanks bs) bs.
-Proof.
-  intros bs H Hl. unfold trim_spaces_from_left. rewrite drop_blank_skipn by exact H.
-  pose proof (skipn_nonempty bs _ Hl) as Hne.
-  destruct (skipn (lead_blanks bs) bs); [congruence|reflexivity].
-Qed.
-
-Lemma count_blank_aux_lead : forall line post n, (forall x, In x line -> is_nl x = false) ->
-  (lead_blanks line < length line)%nat ->
-  count_blank_aux (line ++ post) n = Some (n + N.of_nat (lead_blanks line))%N.
-Proof.
-  induction line as [|c r IH]; intros post n H Hl.
-  - cbn [length] in Hl. lia.
-  - cbn [app count_blank_aux lead_blanks length] in *.
-    rewrite is_blank_no_nl by (apply H; now left).
+  induction bs as [|c r IH]; intros H.
+  - reflexivity.
+  - cbn [indentation lead_blanks]. rewrite is_blank_no_nl by (apply H; now left).
     destruct (N.eqb (Byte.to_N c) 32 || N.eqb (Byte.to_N c) 9)%bool.
-    + rewrite IH; [f_equal; lia| |lia]. intros x Hx. apply H. now right.
-    + f_equal. lia.
+    + f_equal. apply IH. intros x Hx. apply H. now right.
+    + reflexivity.
 Qed.
 
-Lemma lead_blanks_firstn : forall l n, (lead_blanks (firstn n l) < length (firstn n l))%nat ->
-  lead_blanks l = lead_blanks (firstn n l) /\ (lead_blanks l < length l)%nat.
+Lemma indentation_le : forall bs, (indentation bs <= length bs)%nat.
 Proof.
-  induction l as [|c r IH]; intros n H.
-  - destruct n; cbn [firstn length] in H; lia.
-  - destruct n as [|n]; [cbn [firstn length] in H; lia|].
-    cbn [firstn lead_blanks length] in *.
-    destruct (N.eqb (Byte.to_N c) 32 || N.eqb (Byte.to_N c) 9)%bool.
-    + destruct (IH n) as [E L]; [lia|]. split; lia.
-    + split; lia.
+  induction bs as [|c r IH]; cbn [indentation length]; [lia|]. destruct (is_blank c); lia.
+Qed.
+
+Lemma drop_blank_indentation : forall bs, drop_blank bs = skipn (indentation bs) bs.
+Proof.
+  induction bs as [|c r IH]; [reflexivity|].
+  cbn [drop_blank indentation]. destruct (is_blank c); [cbn [skipn]; exact IH|reflexivity].
+Qed.
+
+(* a line of blanks only: nothing is left to show *)
+Lemma lead_blanks_le : forall bs, (lead_blanks bs <= length bs)%nat.
+Proof.
+  induction bs as [|c r IH]; cbn [lead_blanks length]; [lia|].
+  destruct (N.eqb (Byte.to_N c) 32 || N.eqb (Byte.to_N c) 9)%bool; lia.
+Qed.
+
+Lemma shown_all_blank : forall line, lead_blanks line = length line -> shown line = [].
+Proof.
+  intros line H. unfold shown. rewrite H, skipn_all. reflexivity.
 Qed.
 
 (* ---------- shown text and caret, for any new-line byte ---------- *)
@@ -470,41 +472,68 @@ Lemma source_substring_eq : forall content p, content <> [] ->
     let nl := detect_nl content in
     let b := line_begin nl content p in
     let e := line_end nl content p in
-    let t := trim_spaces_from_left (slice content b e) in
+    let line := slice content b e in
+    let t := skipn (indentation line) line in
     if Nat.ltb 200 (length t) then firstn 197 t ++ dots else t.
 Proof. intros content p H. destruct content; [congruence|reflexivity]. Qed.
+
+(* the two facts the renderer needs about the line: where it begins and where it ends *)
+Lemma line_text_core : forall nl content pre line post p,
+  content = pre ++ line ++ post ->
+  detect_nl content = nl ->
+  line_begin nl content p = N.of_nat (length pre) ->
+  line_end nl content p = N.of_nat (length pre + length line) ->
+  (forall c, In c line -> is_nl c = false) ->
+  source_substring content p = shown line.
+Proof.
+  intros nl content pre line post p Hc Hd Hb He Hnl.
+  destruct content as [|c0 r0] eqn:Ec.
+  - symmetry in Hc. apply app_eq_nil in Hc. destruct Hc as [_ Hc].
+    apply app_eq_nil in Hc. destruct Hc as [-> _]. reflexivity.
+  - rewrite <- Ec in *. rewrite source_substring_eq by (rewrite Ec; discriminate). cbv zeta.
+    rewrite Hd, Hb, He. rewrite Hc.
+    unfold shown. rewrite slice_line, (indentation_lead line Hnl). reflexivity.
+Qed.
+
+Lemma caret_core : forall nl content pre line post p,
+  content = pre ++ line ++ post ->
+  detect_nl content = nl ->
+  line_begin nl content p = N.of_nat (length pre) ->
+  line_end nl content p = N.of_nat (length pre + length line) ->
+  (forall c, In c line -> is_nl c = false) ->
+  caret_offset content p = N.of_nat (N.to_nat p - length pre - lead_blanks line).
+Proof.
+  intros nl content pre line post p Hc Hd Hb He Hnl.
+  unfold caret_offset. rewrite Hd, Hb, He. rewrite Hc.
+  rewrite slice_line, (indentation_lead line Hnl). lia.
+Qed.
 
 Lemma line_text_gen : forall nl content pre line post p,
   detect_nl content = nl ->
   (forall c, In c content -> other_half nl c = false) ->
   (forall c, In c line -> is_nl c = false) ->
   is_line_at nl content pre line post p ->
-  (lead_blanks line < length line)%nat ->
   source_substring content p = shown line.
 Proof.
-  intros nl content pre line post p Hd Hoh Hnl Hat Hlead.
-  assert (Hne : content <> []).
-  { destruct Hat as (Hc & _). subst content. intros E.
-    apply (f_equal (@length byte)) in E. rewrite !app_length in E. cbn [length] in E. lia. }
-  rewrite source_substring_eq by exact Hne. cbv zeta. rewrite Hd.
-  rewrite (line_begin_at _ _ _ _ _ _ Hat), (line_end_at _ _ _ _ _ _ Hat Hoh).
-  destruct Hat as (Hc & _). subst content.
-  unfold shown. rewrite slice_line.
-  rewrite (trim_skipn line Hnl Hlead). reflexivity.
+  intros nl content pre line post p Hd Hoh Hnl Hat.
+  apply (line_text_core nl content pre line post p); try assumption.
+  - now destruct Hat.
+  - exact (line_begin_at _ _ _ _ _ _ Hat).
+  - exact (line_end_at _ _ _ _ _ _ Hat Hoh).
 Qed.
 
 Lemma caret_gen : forall nl content pre line post p,
   detect_nl content = nl ->
+  (forall c, In c content -> other_half nl c = false) ->
   (forall c, In c line -> is_nl c = false) ->
   is_line_at nl content pre line post p ->
-  (lead_blanks line < length line)%nat ->
   caret_offset content p = N.of_nat (N.to_nat p - length pre - lead_blanks line).
 Proof.
-  intros nl content pre line post p Hd Hnl Hat Hlead.
-  unfold caret_offset. rewrite Hd, (line_begin_at _ _ _ _ _ _ Hat).
-  destruct Hat as (Hc & _). subst content.
-  rewrite Nat2N.id, skipn_app_len. unfold count_spaces_from_left.
-  rewrite count_blank_aux_lead by assumption. lia.
+  intros nl content pre line post p Hd Hoh Hnl Hat.
+  apply (caret_core nl content pre line post p); try assumption.
+  - now destruct Hat.
+  - exact (line_begin_at _ _ _ _ _ _ Hat).
+  - exact (line_end_at _ _ _ _ _ _ Hat Hoh).
 Qed.
 
 (* ---------- LF files ---------- *)
@@ -526,28 +555,25 @@ Proof.
 Qed.
 
 Theorem line_text_lf : forall content pre line post p, lf_file content = true -> is_line_at LF content pre line post p ->
-  (lead_blanks line < length line)%nat ->
   source_substring content p = shown line.
 Proof.
-  intros content pre line post p Hf Hat Hlead.
+  intros content pre line post p Hf Hat.
   apply (line_text_gen LF content pre line post p).
   - now apply detect_nl_lf.
   - now apply lf_no_other_half.
   - now apply (lf_line_no_nl content pre line post p).
   - exact Hat.
-  - exact Hlead.
 Qed.
 
 Theorem caret_lf : forall content pre line post p, lf_file content = true -> is_line_at LF content pre line post p ->
-  (lead_blanks line < length line)%nat ->
   caret_offset content p = N.of_nat (N.to_nat p - length pre - lead_blanks line).
 Proof.
-  intros content pre line post p Hf Hat Hlead.
+  intros content pre line post p Hf Hat.
   apply (caret_gen LF content pre line post p).
   - now apply detect_nl_lf.
+  - now apply lf_no_other_half.
   - now apply (lf_line_no_nl content pre line post p).
   - exact Hat.
-  - exact Hlead.
 Qed.
 
 (* ---------- CR files ---------- *)
@@ -569,26 +595,132 @@ Proof.
 Qed.
 
 Theorem line_text_cr : forall content pre line post p, cr_file content = true -> is_line_at CR content pre line post p ->
-  (lead_blanks line < length line)%nat ->
   source_substring content p = shown line.
 Proof.
-  intros content pre line post p Hf Hat Hlead.
+  intros content pre line post p Hf Hat.
   apply (line_text_gen CR content pre line post p).
   - now apply detect_nl_cr.
   - now apply cr_no_other_half.
   - now apply (cr_line_no_nl content pre line post p).
   - exact Hat.
-  - exact Hlead.
 Qed.
 
 Theorem caret_cr : forall content pre line post p, cr_file content = true -> is_line_at CR content pre line post p ->
-  (lead_blanks line < length line)%nat ->
   caret_offset content p = N.of_nat (N.to_nat p - length pre - lead_blanks line).
 Proof.
-  intros content pre line post p Hf Hat Hlead.
+  intros content pre line post p Hf Hat.
   apply (caret_gen CR content pre line post p).
   - now apply detect_nl_cr.
+  - now apply cr_no_other_half.
   - now apply (cr_line_no_nl content pre line post p).
   - exact Hat.
-  - exact Hlead.
+Qed.
+
+(* ---------- CRLF files ---------- *)
+(* seen with the new-line byte LF, the line of a CRLF file carries its CR *)
+Lemma crlf_line_lf : forall content pre line post p,
+  is_line_at_crlf content pre line post p ->
+  (post = [] /\ is_line_at LF content pre line [] p) \/
+  (exists post', post = CR :: LF :: post' /\ is_line_at LF content pre (line ++ [CR]) (LF :: post') p).
+Proof.
+  intros content pre line post p (Hc & Hpre & HlC & HlL & Hpost & Hp1 & Hp2).
+  assert (Hpre' : pre = [] \/ exists pre', pre = pre' ++ [LF]).
+  { destruct Hpre as [->|[pre' ->]]; [now left|]. right. exists (pre' ++ [CR]). now rewrite <- app_assoc. }
+  destruct Hpost as [->|[post' ->]].
+  - left. split; [reflexivity|]. repeat split; try assumption.
+    + now left.
+    + destruct Hp2 as [Hp2|[_ Hp2]]; [now left|congruence].
+  - right. exists post'. split; [reflexivity|]. repeat split; try assumption.
+    + rewrite Hc, <- app_assoc. reflexivity.
+    + rewrite has_app, HlL. reflexivity.
+    + right. now exists post'.
+    + rewrite app_length. cbn [length].
+      destruct Hp2 as [Hp2|[Hp2 _]]; [left; lia|].
+      assert (E : (N.to_nat p < length pre + (length line + 1) \/ N.to_nat p = length pre + (length line + 1))%nat) by lia.
+      destruct E as [E|E]; [now left|right; split; [exact E|discriminate]].
+Qed.
+
+Lemma line_begin_crlf_at : forall content pre line post p,
+  is_line_at_crlf content pre line post p ->
+  line_begin LF content p = N.of_nat (length pre).
+Proof.
+  intros content pre line post p Hat.
+  destruct (crlf_line_lf _ _ _ _ _ Hat) as [[_ H]|[post' [_ H]]]; exact (line_begin_at _ _ _ _ _ _ H).
+Qed.
+
+Lemma nth_error_last_app : forall (a : bytes) c b, nth_error (a ++ c :: b) (length a) = Some c.
+Proof. intros a c b. rewrite nth_error_app2 by lia. now rewrite Nat.sub_diag. Qed.
+
+Lemma line_end_crlf_at : forall content pre line post p,
+  is_line_at_crlf content pre line post p ->
+  line_end LF content p = N.of_nat (length pre + length line).
+Proof.
+  intros content pre line post p Hat.
+  pose proof Hat as (Hc & Hpre & HlC & HlL & _).
+  destruct (crlf_line_lf _ _ _ _ _ Hat) as [[-> H]|[post' [-> H]]];
+    unfold line_end; rewrite (first_nl_at _ _ _ _ _ _ H).
+  - (* last line, no terminator: the byte before the end is not a CR *)
+    destruct (N.ltb 0 (N.of_nat (length pre + length line))) eqn:E0; [|reflexivity].
+    apply N.ltb_lt in E0.
+    assert (Hn : exists c, nth_error content (N.to_nat (N.of_nat (length pre + length line) - 1)) = Some c /\
+                           byte_eqb c CR = false).
+    { rewrite Hc, app_nil_r.
+      destruct (rev line) as [|c rl] eqn:Er.
+      - apply (f_equal (@rev byte)) in Er. rewrite rev_involutive in Er. cbn [rev] in Er. subst line.
+        cbn [length] in *. rewrite app_nil_r.
+        destruct Hpre as [->|[pre' ->]]; [cbn [length] in E0; lia|].
+        exists LF. split; [|reflexivity].
+        replace (pre' ++ [CR; LF]) with ((pre' ++ [CR]) ++ [LF]) by now rewrite <- app_assoc.
+        replace (N.to_nat _) with (length (pre' ++ [CR])) by (rewrite !app_length; cbn [length]; lia).
+        apply nth_error_last_app.
+      - apply (f_equal (@rev byte)) in Er. rewrite rev_involutive in Er. cbn [rev] in Er. subst line.
+        exists c. split.
+        + rewrite app_assoc.
+          replace (N.to_nat _) with (length (pre ++ rev rl)) by (rewrite !app_length; cbn [length]; lia).
+          apply nth_error_last_app.
+        + apply (has_false_In CR _ HlC). apply in_or_app. right. now left. }
+    destruct Hn as [c [-> Hcr]]. now rewrite other_half_LF, Hcr.
+  - (* the byte before the LF is the CR *)
+    rewrite app_length. cbn [length].
+    destruct (N.ltb 0 (N.of_nat (length pre + (length line + 1)))) eqn:E0; [|apply N.ltb_ge in E0; lia].
+    assert (Hn : nth_error content (N.to_nat (N.of_nat (length pre + (length line + 1)) - 1)) = Some CR).
+    { rewrite Hc, app_assoc.
+      replace (N.to_nat _) with (length (pre ++ line)) by (rewrite app_length; lia).
+      apply nth_error_last_app. }
+    rewrite Hn. cbn. lia.
+Qed.
+
+Lemma crlf_line_no_nl : forall content pre line post p,
+  is_line_at_crlf content pre line post p -> forall c, In c line -> is_nl c = false.
+Proof.
+  intros content pre line post p (_ & _ & HlC & HlL & _) c Hin.
+  rewrite is_nl_cases. apply orb_false_iff. split.
+  - now apply (has_false_In LF line).
+  - now apply (has_false_In CR line).
+Qed.
+
+Theorem line_text_crlf : forall content pre line post p, crlf_file content = true ->
+  is_line_at_crlf content pre line post p ->
+  source_substring content p = shown line.
+Proof.
+  intros content pre line post p Hf Hat.
+  apply (line_text_core LF content pre line post p).
+  - now destruct Hat.
+  - now apply detect_nl_crlf.
+  - now apply (line_begin_crlf_at content pre line post p).
+  - now apply (line_end_crlf_at content pre line post p).
+  - now apply (crlf_line_no_nl content pre line post p).
+Qed.
+
+Theorem caret_crlf : forall content pre line post p, crlf_file content = true ->
+  is_line_at_crlf content pre line post p ->
+  caret_offset content p = N.of_nat (N.to_nat p - length pre - lead_blanks line).
+Proof.
+  intros content pre line post p Hf Hat.
+  apply (caret_core LF content pre line post p).
+  - now destruct Hat.
+  - now apply detect_nl_crlf.
+  - now apply (line_begin_crlf_at content pre line post p).
+  - now apply (line_end_crlf_at content pre line post p).
+  - now apply (crlf_line_no_nl content pre line post p).
 Qed.
